@@ -6,13 +6,20 @@
 //!   pe    <text> <n> {name value}* | <intended>      parse then eval_multivariate (oracle only)
 //!   both  <text> <x> | <intended>        parse with BOTH parsers, evaluate both at x (oracle only)
 //!
+//! `pe` and `evalm` (on the sparse type) additionally carry a harness verdict: every entry point that
+//! duplicates the evaluation (trait method `eval_multivariate`, free function
+//! `eval_intermediate_polynomial` on owned / borrowed names, a `HashMap`, `f32` values, and
+//! `eval_univariate` when exactly the polynomial's single variable is bound) must give the same answer.
+//!
 //! `<intended>` = `nterms { neg cm cs dm ds nv { cp eneg em es fm fs }* }*`: coefficient
 //! ±(cm/10^cs)/(dm/10^ds) (dm = 0: no denominator), per variable the code point and exponent
 //! ±(em/10^es)/(fm/10^fs) (fm = 0: no denominator).  Only the Python oracle reads it.
 use crate::polyio::*;
 use crate::polyops;
 use crate::util::*;
-use spindalis_core::polynomials::intermediate::parse_intermediate_polynomial;
+use spindalis_core::polynomials::intermediate::{eval_intermediate_polynomial, parse_intermediate_polynomial};
+use spindalis_core::polynomials::PolynomialError;
+use std::collections::HashMap;
 use spindalis_core::polynomials::structs::{IntermediatePolynomial, PolynomialTraits, SimplePolynomial};
 
 pub fn show_parsed(r: &Result<IntermediatePolynomial, spindalis_core::polynomials::PolynomialError>) -> String {
@@ -20,6 +27,54 @@ pub fn show_parsed(r: &Result<IntermediatePolynomial, spindalis_core::polynomial
         Ok(p) => format!("ok {}", show_inter(p)),
         Err(e) => format!("err {}", err_kind(e)),
     }
+}
+
+fn same_eval(a: &Result<f64, PolynomialError>, b: &Result<f64, PolynomialError>) -> bool {
+    match (a, b) {
+        (Ok(x), Ok(y)) => x.to_bits() == y.to_bits() || (x.is_nan() && y.is_nan()) || x == y,
+        (Err(e), Err(f)) => err_kind(e) == err_kind(f),
+        _ => false,
+    }
+}
+
+/// Every way of evaluating the same sparse polynomial under the same bindings must agree with the trait
+/// method's answer `main` (same value bit for bit / same error kind).
+pub fn cross_entry(p: &IntermediatePolynomial, binds: &Vec<(String, f64)>, main: &Result<f64, PolynomialError>) -> Result<(), String> {
+    let check = |what: &str, r: Option<Result<f64, PolynomialError>>| -> Result<(), String> {
+        match r {
+            None => Err(format!("{what} panicked")),
+            Some(r) if same_eval(&r, main) => Ok(()),
+            Some(r) => Err(format!("{what} answers `{}` but eval_multivariate answers `{}`", show_eval(&r), show_eval(main))),
+        }
+    };
+    check("eval_intermediate_polynomial(&terms, &Vec<(String, f64)>)", catch(|| eval_intermediate_polynomial(&p.terms, binds)))?;
+    let borrowed: Vec<(&str, f64)> = binds.iter().map(|(n, v)| (n.as_str(), *v)).collect();
+    check("eval_intermediate_polynomial(&terms, &Vec<(&str, f64)>)", catch(|| eval_intermediate_polynomial(&p.terms, &borrowed)))?;
+    check("eval_multivariate(&Vec<(&str, f64)>)", catch(|| p.eval_multivariate(&borrowed)))?;
+    // through Deref<Target = [Term]>
+    check("eval_intermediate_polynomial(&*poly, ..)", catch(|| eval_intermediate_polynomial(&**p, &borrowed)))?;
+    let mut map: HashMap<String, f64> = HashMap::new();
+    for (n, v) in binds {
+        map.insert(n.clone(), *v); // a later binding of the same name wins, as in the list form
+    }
+    check("eval_multivariate(&HashMap<String, f64>)", catch(|| p.eval_multivariate(&map)))?;
+    if binds.iter().all(|(_, v)| (*v as f32) as f64 == *v) {
+        let single: Vec<(&str, f32)> = binds.iter().map(|(n, v)| (n.as_str(), *v as f32)).collect();
+        check("eval_multivariate(&Vec<(&str, f32)>)", catch(|| p.eval_multivariate(&single)))?;
+    }
+    if binds.iter().all(|(_, v)| v.fract() == 0.0 && v.abs() < 1e9 && !(*v == 0.0 && v.is_sign_negative())) {
+        let ints: Vec<(&str, i32)> = binds.iter().map(|(n, v)| (n.as_str(), *v as i32)).collect();
+        check("eval_multivariate(&Vec<(&str, i32)>)", catch(|| p.eval_multivariate(&ints)))?;
+    }
+    // the univariate entry point binds the polynomial's only variable: same function
+    if p.variables.len() == 1 && !binds.is_empty() && binds.iter().all(|(n, _)| *n == p.variables[0]) {
+        let x = binds.last().unwrap().1;
+        check("eval_univariate(value)", catch(|| p.eval_univariate(x)))?;
+    }
+    if p.variables.is_empty() && p.terms.iter().all(|t| t.variables.is_empty()) {
+        check("eval_univariate on a constant polynomial", catch(|| p.eval_univariate(1.5)))?;
+    }
+    Ok(())
 }
 
 pub fn run(line: &str) -> Obs {
@@ -41,10 +96,31 @@ pub fn run(line: &str) -> Obs {
             let text = t.string();
             let n = t.usize();
             let binds: Vec<(String, f64)> = (0..n).map(|_| (t.string(), t.f64())).collect();
-            let r = catch(|| IntermediatePolynomial::parse(&text).and_then(|p| p.eval_multivariate(&binds)));
+            let r = catch(|| IntermediatePolynomial::parse(&text).map(|p| {
+                let r = p.eval_multivariate(&binds);
+                let v = cross_entry(&p, &binds, &r);
+                (r, v)
+            }));
             match r {
-                Some(r) => Obs::plain(show_eval(&r)),
+                Some(Ok((r, v))) => Obs::with(show_eval(&r), v),
+                Some(Err(e)) => Obs::plain(show_eval(&Err(e))),
                 None => Obs::with("panic".into(), Err("parse+eval panicked".into())),
+            }
+        }
+        "evalm" => {
+            let p = read_any(&mut t);
+            let n = t.usize();
+            let binds: Vec<(String, f64)> = (0..n).map(|_| (t.string(), t.f64())).collect();
+            match catch(|| {
+                let r = polyops::eval_multi(&p, &binds);
+                let v = match &p {
+                    AnyPoly::I(q) => cross_entry(q, &binds, &r),
+                    AnyPoly::S(_) => Ok(()),
+                };
+                (show_eval(&r), v)
+            }) {
+                Some((s, v)) => Obs::with(s, v),
+                None => Obs::with("panic".into(), Err("eval_multivariate panicked".into())),
             }
         }
         "both" => {
@@ -299,4 +375,668 @@ pub fn generate(seed: u64, thorough: bool, emit: &mut dyn FnMut(String)) {
         }
         emit(s);
     }
+    hardening_families(seed, thorough, emit);
+}
+
+// ------------------------------------------------------------------------------------ hardening families
+//
+// Texts with numbers of arbitrary size: mantissas are decimal digit strings (the Python oracle reads them as
+// unbounded integers), same `<intended>` layout as above.
+
+#[derive(Clone)]
+pub struct XNum {
+    pub neg: bool,
+    pub m: String,
+    pub s: u32,
+    pub dm: String,
+    pub ds: u32,
+    pub text: String, // as spelled (an exponent's sign included; a coefficient's sign lives in the term)
+}
+
+#[derive(Clone)]
+pub struct XTerm {
+    pub neg: bool,
+    pub coef: Option<XNum>,
+    pub vars: Vec<(char, Option<XNum>)>,
+}
+
+fn xn(g: &GenNum) -> XNum {
+    XNum { neg: g.neg, m: g.m.to_string(), s: g.s, dm: g.dm.to_string(), ds: g.ds, text: g.text.clone() }
+}
+fn xt(t: &GenITerm) -> XTerm {
+    XTerm { neg: t.neg, coef: t.coef.as_ref().map(xn), vars: t.vars.iter().map(|(c, e)| (*c, e.as_ref().map(xn))).collect() }
+}
+/// integer exponent / coefficient spelled `text` with value ±m
+fn xint(neg: bool, m: u64, text: &str) -> XNum {
+    XNum { neg, m: m.to_string(), s: 0, dm: "0".into(), ds: 0, text: text.to_string() }
+}
+fn xdec(neg: bool, m: &str, s: u32, text: &str) -> XNum {
+    XNum { neg, m: m.to_string(), s, dm: "0".into(), ds: 0, text: text.to_string() }
+}
+fn xfrac(neg: bool, a: &str, sa: u32, b: &str, sb: u32, text: &str) -> XNum {
+    XNum { neg, m: a.to_string(), s: sa, dm: b.to_string(), ds: sb, text: text.to_string() }
+}
+
+pub fn xrender(rng: &mut Rng, terms: &[XTerm], spacing: u64) -> String {
+    let mut s = String::new();
+    let sp = |rng: &mut Rng, s: &mut String| {
+        if rng.below(10) < spacing {
+            s.push_str(*rng.pick(crate::c01::SPACES));
+        }
+    };
+    sp(rng, &mut s);
+    for (i, t) in terms.iter().enumerate() {
+        if t.neg {
+            s.push('-');
+            sp(rng, &mut s);
+        } else if i > 0 || rng.chance(1, 8) {
+            s.push('+');
+            sp(rng, &mut s);
+        }
+        if let Some(c) = &t.coef {
+            s.push_str(&c.text);
+            sp(rng, &mut s);
+        }
+        for (v, e) in &t.vars {
+            s.push(*v);
+            sp(rng, &mut s);
+            if let Some(e) = e {
+                s.push('^');
+                sp(rng, &mut s);
+                s.push_str(&e.text);
+                sp(rng, &mut s);
+            }
+        }
+    }
+    s
+}
+
+pub fn xintended(terms: &[XTerm]) -> String {
+    let mut s = format!("{}", terms.len());
+    for t in terms {
+        match &t.coef {
+            Some(c) => s.push_str(&format!(" {} {} {} {} {}", t.neg as u8, c.m, c.s, c.dm, c.ds)),
+            None => s.push_str(&format!(" {} 1 0 0 0", t.neg as u8)),
+        }
+        s.push_str(&format!(" {}", t.vars.len()));
+        for (v, e) in &t.vars {
+            match e {
+                Some(e) => s.push_str(&format!(" {} {} {} {} {} {}", *v as u32, e.neg as u8, e.m, e.s, e.dm, e.ds)),
+                None => s.push_str(&format!(" {} 0 1 0 0 0", *v as u32)),
+            }
+        }
+    }
+    s
+}
+
+fn binds_text(binds: &[(String, f64)]) -> String {
+    let mut b = format!("{}", binds.len());
+    for (n, v) in binds {
+        b.push_str(&format!(" {} {}", req_string(n), rbits(*v)));
+    }
+    b
+}
+
+/// r^12 for r over a wide range of magnitudes (2^-6..2^6, so values 2^-72..2^72) and next to 1
+/// (17/16, 15/16, 9/8, 7/8): all exactly representable, all with exact rational 12th roots
+pub fn wide12(rng: &mut Rng) -> f64 {
+    let r: f64 = match rng.below(4) {
+        0 => 2f64.powi(rng.range(-6, 6) as i32),
+        1 => *rng.pick(&[17.0 / 16.0, 15.0 / 16.0, 9.0 / 8.0, 7.0 / 8.0, 1.0, 1.25, 0.75]),
+        2 => *rng.pick(&[3.0, 5.0, 1.5, 2.5]) * 2f64.powi(rng.range(-5, 3) as i32),
+        _ => *rng.pick(&[1.0, 2.0, 0.5, 1.5, 3.0, 0.75, 1.25, 2.5]),
+    };
+    r.powi(12)
+}
+
+/// any finite double an integer-exponent term may be evaluated at: zeros of both signs, ±1, values next to 1 and
+/// next to 0 at every distance, negative values, wide magnitudes
+pub fn int_point(rng: &mut Rng, allow_zero: bool) -> f64 {
+    loop {
+        let v = match rng.below(12) {
+            0 => 0.0,
+            1 => -0.0,
+            2 => *rng.pick(&[1.0, -1.0, 2.0, -2.0, 0.5, -0.5, 3.0, -3.0, 10.0, 0.1]),
+            3 => 1.0 + 2f64.powi(-(rng.range(1, 52) as i32)),
+            4 => 1.0 - 2f64.powi(-(rng.range(1, 53) as i32)),
+            5 => 1.0 + if rng.chance(1, 2) { 1.0 } else { -1.0 } * 10f64.powi(-(rng.range(1, 17) as i32)),
+            6 => 10f64.powi(-(rng.range(1, 30) as i32)) * if rng.chance(1, 3) { -1.0 } else { 1.0 },
+            7 => 2f64.powi(rng.range(-70, 60) as i32) * if rng.chance(1, 3) { -1.0 } else { 1.0 },
+            8 => -(1.0 + 2f64.powi(-(rng.range(1, 40) as i32))),
+            9 => rng.dyadic(256, 6),
+            10 => (rng.uniform(-10.0, 10.0) * 1000.0).round() / 1000.0,
+            _ => rng.uniform(-3.0, 3.0),
+        };
+        if allow_zero || v != 0.0 {
+            return v;
+        }
+    }
+}
+
+/// integer exponent forms, zero and "negative zero" included
+fn int_exp(rng: &mut Rng, allow_negative: bool) -> Option<XNum> {
+    match rng.below(12) {
+        0 | 1 => None,
+        2 => Some(xint(false, 0, "0")),
+        3 => Some(xint(false, 0, *rng.pick(&["00", "0.0", "0.", "0/1", "0/5"]))).map(|mut e| {
+            if e.text.contains('/') {
+                e.dm = e.text[2..].to_string();
+            }
+            e
+        }),
+        4 => Some(xint(true, 0, "-0")),
+        5 if allow_negative => {
+            let n = rng.range(1, 4) as u64;
+            Some(xint(true, n, &format!("-{n}")))
+        }
+        6 => {
+            // integer spelled as a fraction or a decimal
+            let n = rng.range(1, 4) as u64;
+            match rng.below(3) {
+                0 => Some(xfrac(false, &(2 * n).to_string(), 0, "2", 0, &format!("{}/2", 2 * n))),
+                1 => Some(xdec(false, &(n * 10).to_string(), 1, &format!("{n}.0"))),
+                _ => Some(xdec(false, &(n * 100).to_string(), 2, &format!("0{n}.00"))),
+            }
+        }
+        7 => Some(xint(false, 1, "1")),
+        _ => {
+            let n = rng.range(1, 5) as u64;
+            Some(xint(false, n, &n.to_string()))
+        }
+    }
+}
+
+fn is_negative_exp(e: &Option<XNum>) -> bool {
+    matches!(e, Some(x) if x.neg && x.m.chars().any(|c| c != '0'))
+}
+
+/// coefficient spellings of extreme magnitude / length
+pub fn wide_coeff(rng: &mut Rng) -> XNum {
+    match rng.below(8) {
+        0 => {
+            // 0.00…0d, up to 60 zeros
+            let z = rng.range(3, 60) as usize;
+            let d = rng.range(1, 9);
+            xdec(false, &d.to_string(), z as u32 + 1, &format!("0.{}{d}", "0".repeat(z)))
+        }
+        1 => {
+            // d00…0, up to 60 digits
+            let z = rng.range(3, 60) as usize;
+            let d = rng.range(1, 9);
+            let t = format!("{d}{}", "0".repeat(z));
+            xdec(false, &t, 0, &t)
+        }
+        2 => {
+            // 40 significant digits
+            let mut t = String::new();
+            for i in 0..40 {
+                t.push(char::from(b'0' + if i == 0 { rng.range(1, 9) } else { rng.range(0, 9) } as u8));
+            }
+            let k = rng.range(0, 40) as usize;
+            let text = if k == 0 { format!(".{t}") } else if k == 40 { t.clone() } else { format!("{}.{}", &t[..k], &t[k..]) };
+            xdec(false, &t, (40 - k) as u32, &text)
+        }
+        3 => {
+            // leading zeros
+            let z = rng.range(1, 30) as usize;
+            let n = rng.range(1, 999) as u64;
+            xdec(false, &n.to_string(), 0, &format!("{}{n}", "0".repeat(z)))
+        }
+        4 => {
+            // small / huge
+            let z = rng.range(3, 40) as usize;
+            let a = rng.range(1, 99) as u64;
+            let b = format!("{}{}", rng.range(1, 9), "0".repeat(z));
+            xfrac(false, &a.to_string(), 0, &b, 0, &format!("{a}/{b}"))
+        }
+        5 => {
+            // huge / small
+            let z = rng.range(3, 40) as usize;
+            let a = format!("{}{}", rng.range(1, 9), "0".repeat(z));
+            let d = rng.range(1, 9);
+            let zz = rng.range(1, 20) as usize;
+            xfrac(false, &a, 0, &d.to_string(), zz as u32 + 1, &format!("{a}/0.{}{d}", "0".repeat(zz)))
+        }
+        6 => {
+            // trailing zeros after the point
+            let n = rng.range(1, 99) as u64;
+            let z = rng.range(1, 30) as usize;
+            xdec(false, &n.to_string(), 0, &format!("{n}.{}", "0".repeat(z)))
+        }
+        _ => {
+            // exactly representable power of two spelled out: 2^-k
+            let k = rng.range(1, 40) as u32;
+            let m = 5u128.pow(k).to_string(); // 2^-k = 5^k / 10^k
+            let text = format!("0.{}{m}", "0".repeat(k as usize - m.len()));
+            xdec(false, &m, k, &text)
+        }
+    }
+}
+
+fn one_var_pool(c: char) -> Vec<char> {
+    vec![c]
+}
+
+const ALPHABET: &str = "abcdefghijklmnopqrstuvwxyzABCDEFGHIJKLMNOPQRSTUVWXYZ";
+
+pub fn hardening_families(seed: u64, thorough: bool, emit: &mut dyn FnMut(String)) {
+    let mut rng = Rng::new(Rng::new(seed ^ 0xC02_0002).next());
+    let mul = if thorough { 12 } else { 1 };
+    let mut idx = 0usize;
+    let mut pp = |emit: &mut dyn FnMut(String), text: &str, want: &str, binds: &[(String, f64)]| {
+        emit(format!("parse {} {} | {}", idx % 2, req_string(text), want));
+        emit(format!("pe {} {} | {}", req_string(text), binds_text(binds), want));
+        idx += 1;
+    };
+    let b = |c: char, v: f64| (c.to_string(), v);
+
+    // ---- fixed corner cases (every seed)
+    {
+        let x0 = xint(false, 0, "0");
+        let two = xint(false, 2, "2");
+        let t = |neg: bool, coef: Option<XNum>, vars: Vec<(char, Option<XNum>)>| XTerm { neg, coef, vars };
+        // 0^0 = 1 (explicit exponent 0 at value 0), alone and beside other factors
+        let cases: Vec<(Vec<XTerm>, Vec<(String, f64)>)> = vec![
+            (vec![t(false, None, vec![('x', Some(x0.clone()))])], vec![b('x', 0.0)]),
+            (vec![t(false, Some(xint(false, 3, "3")), vec![('x', Some(x0.clone()))])], vec![b('x', -0.0)]),
+            (vec![t(false, Some(xint(false, 3, "3")), vec![('x', Some(x0.clone())), ('y', Some(two.clone()))])], vec![b('x', 0.0), b('y', 2.0)]),
+            (vec![t(true, None, vec![('y', None), ('x', Some(xint(true, 0, "-0")))]), t(false, Some(xint(false, 5, "5")), vec![])], vec![b('x', 0.0), b('y', 0.0)]),
+            // a zero-valued variable first, a missing one after it (same term / later term / zero coefficient)
+            (vec![t(false, None, vec![('a', None), ('b', None)])], vec![b('a', 0.0)]),
+            (vec![t(false, None, vec![('b', None), ('a', Some(two.clone()))])], vec![b('a', 0.0)]),
+            (vec![t(false, None, vec![('a', None)]), t(false, None, vec![('b', None)])], vec![b('a', 0.0)]),
+            (vec![t(false, Some(xint(false, 0, "0")), vec![('a', None), ('b', None)])], vec![b('a', 1.0)]),
+            (vec![t(false, Some(xint(false, 0, "0")), vec![('b', None)]), t(false, Some(xint(false, 1, "1")), vec![])], vec![]),
+            (vec![t(false, None, vec![('a', None), ('b', Some(x0.clone()))])], vec![b('a', 2.0)]),
+            (vec![t(false, None, vec![('X', None), ('x', None)])], vec![b('X', 0.0)]),
+            (vec![t(false, None, vec![('X', None), ('x', None)])], vec![b('x', 0.0)]),
+            // a single, wrongly named binding on a one-variable polynomial
+            (vec![t(false, Some(xint(false, 2, "2")), vec![('x', Some(two.clone()))]), t(false, None, vec![('x', None)])], vec![b('y', 3.0)]),
+            (vec![t(false, None, vec![('x', None)])], vec![b('X', 3.0)]),
+            (vec![t(false, None, vec![('X', None)])], vec![b('x', 3.0)]),
+            (vec![t(false, None, vec![('y', Some(two.clone()))])], vec![("yy".to_string(), 3.0)]),
+            (vec![t(false, None, vec![('y', Some(two.clone()))])], vec![(String::new(), 3.0)]),
+            // upper / lower case of the same letter inside one term, both orders
+            (vec![t(false, None, vec![('x', Some(two.clone())), ('X', Some(xint(false, 3, "3")))])], vec![b('x', 2.0), b('X', 3.0)]),
+            (vec![t(false, None, vec![('X', Some(two.clone())), ('x', Some(xint(false, 3, "3")))])], vec![b('x', 2.0), b('X', 3.0)]),
+            (vec![t(false, None, vec![('z', None), ('a', None), ('Z', None), ('A', None)])], vec![b('a', 2.0), b('A', 3.0), b('z', 5.0), b('Z', 7.0)]),
+        ];
+        for (terms, binds) in &cases {
+            let text = xrender(&mut rng, terms, 0);
+            pp(emit, &text, &xintended(terms), binds);
+        }
+    }
+
+    // ---- every letter of the alphabet, alone and next to its other case / a neighbour
+    for (i, c) in ALPHABET.chars().enumerate() {
+        let other = if c.is_ascii_lowercase() { c.to_ascii_uppercase() } else { c.to_ascii_lowercase() };
+        let d = ALPHABET.chars().nth((i + 1 + rng.below(50) as usize) % 52).unwrap();
+        let pools: [Vec<char>; 3] = [one_var_pool(c), vec![c, other], vec![d, c]];
+        for pool in pools.iter() {
+            let mut terms: Vec<XTerm> = (0..1 + rng.below(3)).map(|_| xt(&gen_iterm(&mut rng, pool, false))).collect();
+            // make sure one term carries the whole pool
+            terms.push(XTerm { neg: rng.chance(1, 2), coef: None, vars: pool.iter().rev().map(|v| (*v, xn_opt(gen_exp(&mut rng)))).collect() });
+            let spacing = *rng.pick(&[0u64, 3]);
+        let text = xrender(&mut rng, &terms, spacing);
+            let binds: Vec<(String, f64)> = pool.iter().map(|v| b(*v, wide12(&mut rng))).collect();
+            pp(emit, &text, &xintended(&terms), &binds);
+        }
+    }
+
+    // ---- upper/lower-case pairs inside one term
+    for _ in 0..150 * mul {
+        let k = 1 + rng.below(3) as usize;
+        let mut pool: Vec<char> = Vec::new();
+        while pool.len() < 2 * k {
+            let c = ALPHABET.chars().nth(rng.below(26) as usize).unwrap();
+            if !pool.contains(&c) {
+                pool.push(c);
+                pool.push(c.to_ascii_uppercase());
+            }
+        }
+        if rng.chance(1, 3) {
+            pool.pop();
+        }
+        let nt = 1 + rng.below(4) as usize;
+        let terms: Vec<XTerm> = (0..nt).map(|_| xt(&gen_iterm(&mut rng, &pool, false))).collect();
+        let spacing = *rng.pick(&[0u64, 2, 6]);
+        let text = xrender(&mut rng, &terms, spacing);
+        let drop = if rng.chance(1, 5) { Some(rng.below(pool.len() as u64) as usize) } else { None };
+        let binds: Vec<(String, f64)> =
+            pool.iter().enumerate().filter(|(k, _)| Some(*k) != drop).map(|(_, v)| b(*v, wide12(&mut rng))).collect();
+        pp(emit, &text, &xintended(&terms), &binds);
+    }
+
+    // ---- integer exponents at arbitrary points: zeros, signs, values next to 1 and 0, wide magnitudes;
+    //      missing variables next to zero-valued ones; unused and repeated bindings
+    for _ in 0..700 * mul {
+        let psize = 1 + rng.below(4) as usize;
+        let mut pool: Vec<char> = Vec::new();
+        while pool.len() < psize {
+            let c = if rng.chance(1, 2) { *rng.pick(LETTERS) } else { ALPHABET.chars().nth(rng.below(52) as usize).unwrap() };
+            if !pool.contains(&c) {
+                pool.push(c);
+            }
+        }
+        let nt = 1 + rng.below(4) as usize;
+        let mut terms: Vec<XTerm> = Vec::new();
+        for _ in 0..nt {
+            let g = gen_iterm(&mut rng, &pool, true);
+            let mut t = xt(&g);
+            for v in t.vars.iter_mut() {
+                v.1 = int_exp(&mut rng, true);
+            }
+            if rng.chance(1, 6) {
+                t.coef = Some(if rng.chance(1, 2) { xint(false, 0, *rng.pick(&["0", "0.0", "00", ".0"])) } else { wide_coeff(&mut rng) });
+            }
+            terms.push(t);
+        }
+        let spacing = *rng.pick(&[0u64, 0, 2, 6]);
+        let text = xrender(&mut rng, &terms, spacing);
+        // a variable with a negative exponent somewhere must stay non-zero
+        let mut binds: Vec<(String, f64)> = Vec::new();
+        let zero_bias = rng.chance(1, 2);
+        for c in &pool {
+            let nonzero = terms.iter().any(|t| t.vars.iter().any(|(v, e)| v == c && is_negative_exp(e)));
+            let v = if !nonzero && zero_bias && rng.chance(1, 2) { if rng.chance(1, 4) { -0.0 } else { 0.0 } } else { int_point(&mut rng, !nonzero) };
+            binds.push(b(*c, v));
+        }
+        match rng.below(8) {
+            0 | 1 => {
+                // drop one binding (often one that sorts after a zero-valued one)
+                let k = rng.below(binds.len() as u64) as usize;
+                binds.remove(k);
+            }
+            2 => binds.push(b(*rng.pick(&['w', 'W', 'k']), int_point(&mut rng, true))), // unused extra binding
+            3 => {
+                // the same name bound twice: the later binding counts
+                let k = rng.below(binds.len() as u64) as usize;
+                let again = (binds[k].0.clone(), int_point(&mut rng, false));
+                binds.push(again);
+            }
+            4 => binds.reverse(),
+            _ => {}
+        }
+        pp(emit, &text, &xintended(&terms), &binds);
+    }
+
+    // ---- coefficients of extreme magnitude / length with all exponent forms at wide r^12 values
+    for _ in 0..300 * mul {
+        let psize = rng.below(3) as usize;
+        let mut pool: Vec<char> = Vec::new();
+        while pool.len() < psize {
+            let c = *rng.pick(LETTERS);
+            if !pool.contains(&c) {
+                pool.push(c);
+            }
+        }
+        let nt = 1 + rng.below(4) as usize;
+        let mut terms: Vec<XTerm> = Vec::new();
+        for _ in 0..nt {
+            let mut t = xt(&gen_iterm(&mut rng, &pool, false));
+            if rng.chance(2, 3) {
+                t.coef = Some(wide_coeff(&mut rng));
+            }
+            terms.push(t);
+        }
+        let spacing = *rng.pick(&[0u64, 0, 3]);
+        let text = xrender(&mut rng, &terms, spacing);
+        let binds: Vec<(String, f64)> = pool.iter().map(|v| b(*v, wide12(&mut rng))).collect();
+        pp(emit, &text, &xintended(&terms), &binds);
+    }
+
+    // ---- exponents of extreme magnitude / length (values chosen so that the power is an exact rational in range)
+    {
+        let mut ex: Vec<(XNum, Vec<f64>)> = Vec::new();
+        let near = 1.0 + 2f64.powi(-30);
+        for n in [255u64, 256, 257, 308, 309, 511, 512, 1000, 1023] {
+            ex.push((xint(false, n, &n.to_string()), vec![2.0, 0.5, -2.0, 1.0, -1.0, near, 0.0]));
+            ex.push((xint(true, n, &format!("-{n}")), vec![2.0, 0.5, -0.5, 1.0, -1.0, near]));
+        }
+        for n in [32767u64, 32768, 65535, 65536, 65537, 131072] {
+            ex.push((xint(false, n, &n.to_string()), vec![1.0, -1.0, near, 0.0, 1.0 - 2f64.powi(-20)]));
+            ex.push((xint(true, n, &format!("-{n}")), vec![1.0, -1.0, near]));
+        }
+        for n in [2147483647u64, 2147483648, 4294967295, 4294967296, 4294967297, 9007199254740992, 9007199254740993] {
+            // (2^53 + 1 is not a double: the sign of (-1)^n would depend on the rounding of the exponent)
+            ex.push((xint(false, n, &n.to_string()), if n > (1u64 << 53) { vec![1.0, 0.0] } else { vec![1.0, 0.0, -1.0] }));
+        }
+        ex.push((xdec(false, "2000000000000000000000000", 24, "2.000000000000000000000000"), vec![3.0, -3.0, 0.0]));
+        ex.push((xdec(false, "5000000000000000000000000", 25, "0.5000000000000000000000000"), vec![4096.0, 531441.0]));
+        ex.push((xdec(false, "2", 0, "00000000000000000000000002"), vec![3.0, -3.0]));
+        ex.push((xfrac(false, "1000", 0, "500", 0, "1000/500"), vec![3.0, -3.0]));
+        ex.push((xfrac(false, "3", 0, "6", 0, "3/6"), vec![4096.0]));
+        ex.push((xfrac(true, "30", 0, "60", 0, "-30/60"), vec![4096.0]));
+        ex.push((xfrac(false, "1", 0, "4", 0, "1/4"), vec![2f64.powi(72), 2f64.powi(-72), 2f64.powi(600)]));
+        ex.push((xfrac(false, "25", 2, "5", 1, "0.25/0.5"), vec![4096.0]));
+        ex.push((xfrac(false, "600", 0, "3", 0, "600/3"), vec![2.0, 0.5]));
+        ex.push((xdec(false, "25", 2, "000.25"), vec![4096.0, 2f64.powi(-72)]));
+        for (e, vals) in &ex {
+            for (k, v) in vals.iter().enumerate() {
+                let mut terms = vec![XTerm { neg: k % 2 == 1, coef: if k % 3 == 0 { None } else { Some(xint(false, 3, "3")) }, vars: vec![('x', Some(e.clone()))] }];
+                if k % 2 == 0 {
+                    terms.push(XTerm { neg: false, coef: Some(xint(false, 1, "1")), vars: vec![] });
+                }
+                let text = xrender(&mut rng, &terms, 0);
+                pp(emit, &text, &xintended(&terms), &[b('x', *v)]);
+            }
+        }
+    }
+
+    // ---- sizes just beyond the usual ones: 6..40 terms, 5..26 variables in one term
+    let sizes: Vec<usize> = (6..=40).collect();
+    for rep in 0..mul.min(4) {
+        for &nt in &sizes {
+            let pool: Vec<char> = vec!['x', 'y', 'z'];
+            let mut terms: Vec<XTerm> = Vec::new();
+            for _ in 0..nt {
+                let mut t = xt(&gen_iterm(&mut rng, &pool, true));
+                for v in t.vars.iter_mut() {
+                    v.1 = int_exp(&mut rng, true);
+                }
+                terms.push(t);
+            }
+            let text = xrender(&mut rng, &terms, if rep == 0 { 0 } else { 2 });
+            let binds: Vec<(String, f64)> = pool.iter().map(|v| b(*v, *rng.pick(&[1.0, 2.0, 0.5, -1.0, -2.0, 1.5, 3.0, -0.25]))).collect();
+            pp(emit, &text, &xintended(&terms), &binds);
+        }
+        for nv in 5..=26usize {
+            let mut letters: Vec<char> = ALPHABET.chars().collect();
+            for i in (1..letters.len()).rev() {
+                letters.swap(i, rng.below(i as u64 + 1) as usize);
+            }
+            letters.truncate(nv);
+            let mut terms = vec![XTerm { neg: rng.chance(1, 2), coef: Some(xint(false, 3, "3")), vars: letters.iter().map(|c| (*c, int_exp(&mut rng, true))).collect() }];
+            if rng.chance(1, 2) {
+                let sub: Vec<char> = letters.iter().rev().take(1 + rng.below(nv as u64) as usize).cloned().collect();
+                terms.push(XTerm { neg: false, coef: None, vars: sub.iter().map(|c| (*c, None)).collect() });
+            }
+            let text = xrender(&mut rng, &terms, 0);
+            let mut binds: Vec<(String, f64)> = letters.iter().map(|v| b(*v, *rng.pick(&[1.0, 2.0, 0.5, -1.0, -2.0, 4.0, 0.25]))).collect();
+            if rng.chance(1, 4) {
+                // the LAST variable in sorted order is the missing one
+                let mx = *letters.iter().max().unwrap();
+                binds.retain(|(n, _)| *n != mx.to_string());
+            }
+            pp(emit, &text, &xintended(&terms), &binds);
+        }
+    }
+
+    // ---- both parsers on univariate texts at points of every scale, exponents to the dense parser's limit
+    for i in 0..400 * mul {
+        let (text, want) = if i % 4 == 3 { big_power_text(&mut rng) } else { crate::c01::gen_poly_text_ascii(&mut rng) };
+        let x = int_point(&mut rng, true);
+        emit(format!("both {} {} | {}", req_string(&text), rbits(x), want));
+    }
+    for (text, want) in [("x^65536", "1 0 1 0 65536"), ("-y^65535 + y", "2 1 1 0 65535 0 1 0 1"), ("2t^65536 - t^65535", "2 0 2 0 65536 1 1 0 65535")] {
+        for x in [0.0, -0.0, 1.0, -1.0, 1.0 + 2f64.powi(-30), -(1.0 - 2f64.powi(-25))] {
+            emit(format!("both {} {} | {}", req_string(text), rbits(x), want));
+        }
+    }
+
+    // ---- structures: bindings that do not fit the polynomial, zeros, extreme numbers (K on the shared model + oracle)
+    use spindalis_core::polynomials::Term;
+    let mk = |terms: Vec<(f64, Vec<(&str, f64)>)>| -> IntermediatePolynomial {
+        let terms: Vec<Term> = terms
+            .into_iter()
+            .map(|(c, vs)| {
+                let mut variables: Vec<(String, f64)> = vs.into_iter().map(|(n, e)| (n.to_string(), e)).collect();
+                variables.sort_by(|a, b| a.0.cmp(&b.0));
+                Term { coefficient: c, variables }
+            })
+            .collect();
+        let mut variables: Vec<String> = terms.iter().flat_map(|t| t.variables.iter().map(|v| v.0.clone())).collect();
+        variables.sort();
+        variables.dedup();
+        IntermediatePolynomial { terms, variables }
+    };
+    let evalm = |p: &IntermediatePolynomial, binds: &[(String, f64)]| format!("evalm {} {}", req_inter(p), binds_text(binds));
+    let evalu = |p: &IntermediatePolynomial, x: f64| format!("eval {} {}", req_inter(p), rbits(x));
+    // fixed
+    let px = mk(vec![(2.0, vec![("x", 2.0)]), (1.0, vec![("x", 1.0)]), (-3.0, vec![])]);
+    for wrong in ["y", "X", "xx", "", "a", "z"] {
+        emit(evalm(&px, &[(wrong.to_string(), 3.0)]));
+        emit(evalm(&px, &[(wrong.to_string(), 0.0)]));
+    }
+    emit(evalm(&px, &[("x".to_string(), 3.0)]));
+    emit(evalm(&px, &[("y".to_string(), 5.0), ("x".to_string(), 3.0)]));
+    emit(evalm(&px, &[("x".to_string(), 5.0), ("x".to_string(), 3.0)]));
+    emit(evalm(&px, &[]));
+    let pz = mk(vec![(1.0, vec![("a", 1.0), ("b", 1.0)])]);
+    emit(evalm(&pz, &[("a".to_string(), 0.0)]));
+    emit(evalm(&pz, &[("b".to_string(), 0.0)]));
+    emit(evalm(&pz, &[("a".to_string(), 0.0), ("b".to_string(), 0.0)]));
+    let pz2 = mk(vec![(0.0, vec![("a", 1.0)]), (1.0, vec![("b", 2.0)])]);
+    emit(evalm(&pz2, &[("a".to_string(), 1.0)]));
+    emit(evalm(&pz2, &[("b".to_string(), 1.0)]));
+    let p00 = mk(vec![(1.0, vec![("x", 0.0)])]);
+    for v in [0.0, -0.0, 2.0, -2.0] {
+        emit(evalm(&p00, &[("x".to_string(), v)]));
+        emit(evalu(&p00, v));
+    }
+    let p00b = mk(vec![(3.0, vec![("x", -0.0), ("y", 2.0)]), (1.0, vec![("y", 0.0)])]);
+    emit(evalm(&p00b, &[("x".to_string(), 0.0), ("y".to_string(), 0.0)]));
+    emit(evalm(&mk(vec![]), &[("x".to_string(), 1.0)]));
+    emit(evalm(&mk(vec![]), &[]));
+    emit(evalu(&mk(vec![]), 2.0));
+    emit(evalu(&mk(vec![(5.0, vec![])]), 2.0));
+    emit(evalu(&pz, 2.0)); // two variables through the univariate entry point
+    // random
+    let name_sets: [&[&str]; 8] = [&["x"], &["x", "y"], &["a", "x", "z"], &["X", "x"], &["A", "a", "b"], &["Q"], &["e", "E", "y", "Y"], &["k", "m", "n", "p", "q"]];
+    for _ in 0..900 * mul {
+        let names = *rng.pick(&name_sets);
+        let integer_only = rng.chance(1, 2);
+        let extreme = rng.chance(1, 4);
+        let nt = rng.below(5) as usize;
+        let mut terms: Vec<(f64, Vec<(&str, f64)>)> = Vec::new();
+        for _ in 0..nt {
+            let mut vs: Vec<(&str, f64)> = Vec::new();
+            for n in names {
+                if rng.chance(1, 2) {
+                    let e = if integer_only {
+                        match rng.below(8) {
+                            0 => 0.0,
+                            1 => -0.0,
+                            2 => -(rng.range(1, 3) as f64),
+                            3 if extreme => *rng.pick(&[64.0, 255.0, 256.0, 300.0, -300.0, 1000.0, -1000.0]),
+                            _ => rng.range(1, 6) as f64,
+                        }
+                    } else {
+                        polyops::rand_exponent(&mut rng)
+                    };
+                    vs.push((*n, e));
+                }
+            }
+            let c = if extreme {
+                match rng.below(6) {
+                    0 => 2f64.powi(rng.range(-300, 300) as i32) * rng.range(-5, 5) as f64,
+                    1 => f64::MIN_POSITIVE * rng.range(1, 4) as f64,
+                    2 => 5e-324 * rng.range(1, 1000) as f64,
+                    3 => 10f64.powi(rng.range(-60, 60) as i32),
+                    4 => -0.0,
+                    _ => f64::EPSILON * rng.range(-3, 3) as f64 / 4.0,
+                }
+            } else {
+                match rng.below(4) {
+                    0 => rng.range(-5, 5) as f64,
+                    1 => rng.dyadic(32, 4),
+                    _ => (rng.uniform(-10.0, 10.0) * 100.0).round() / 100.0,
+                }
+            };
+            terms.push((c, vs));
+        }
+        let p = mk(terms);
+        // natural domain of each variable
+        let mut binds: Vec<(String, f64)> = Vec::new();
+        for n in names {
+            let exps: Vec<f64> = p.terms.iter().flat_map(|t| t.variables.iter().filter(|(v, _)| v == n).map(|(_, e)| *e)).collect();
+            let frac = exps.iter().any(|e| e.fract() != 0.0);
+            let neg = exps.iter().any(|e| *e < 0.0);
+            let big = exps.iter().any(|e| e.abs() > 6.0);
+            let v = if big {
+                *rng.pick(&[1.0, 2.0, 0.5, -1.0, -2.0, 1.0 + 2f64.powi(-30)]) * if frac { 0.0 } else { 1.0 } + if frac { 2.0 } else { 0.0 }
+            } else if frac {
+                if rng.chance(1, 2) { wide12(&mut rng) } else { rng.uniform(0.01, 9.0) }
+            } else {
+                int_point(&mut rng, !neg)
+            };
+            binds.push((n.to_string(), v));
+        }
+        match rng.below(10) {
+            0 | 1 => {
+                if !binds.is_empty() {
+                    let k = rng.below(binds.len() as u64) as usize;
+                    binds.remove(k);
+                }
+            }
+            2 => {
+                // only a wrongly named binding
+                let v = binds.first().map(|b| b.1).unwrap_or(1.0);
+                binds = vec![(rng.pick(&["w", "xx", "", "Xx", "x "]).to_string(), v)];
+            }
+            3 => binds.push(("w".to_string(), 0.0)),
+            4 => {
+                if !binds.is_empty() {
+                    let k = rng.below(binds.len() as u64) as usize;
+                    binds.push((binds[k].0.clone(), 1.5));
+                }
+            }
+            5 => binds.reverse(),
+            _ => {}
+        }
+        emit(evalm(&p, &binds));
+        if rng.chance(1, 3) {
+            let x = binds.first().map(|b| b.1).unwrap_or(1.0);
+            emit(evalu(&p, x));
+        }
+    }
+}
+
+fn xn_opt(g: Option<GenNum>) -> Option<XNum> {
+    g.as_ref().map(xn)
+}
+
+/// univariate text with large natural exponents (C01's `<intended>` layout: n { neg mant scale pow })
+fn big_power_text(rng: &mut Rng) -> (String, String) {
+    let var = *rng.pick(&['x', 'y', 't', 'Q']);
+    let n = 1 + rng.below(4) as usize;
+    let mut text = String::new();
+    let mut want = format!("{n}");
+    for i in 0..n {
+        let neg = rng.chance(1, 3);
+        let c = rng.range(1, 20) as u64;
+        let p = *rng.pick(&[0u64, 1, 2, 10, 16, 17, 31, 32, 33, 63, 64, 65, 100, 127, 128, 255, 256, 300]);
+        if neg {
+            text.push_str(if i == 0 { "-" } else { " - " });
+        } else if i > 0 {
+            text.push_str(" + ");
+        }
+        match p {
+            0 => text.push_str(&format!("{c}")),
+            1 => text.push_str(&format!("{c}{var}")),
+            _ => text.push_str(&format!("{c}{var}^{p}")),
+        }
+        want.push_str(&format!(" {} {c} 0 {p}", neg as u8));
+    }
+    (text, want)
 }
